@@ -80,6 +80,75 @@ theorem enqueue_burst_flushes (xs : List Nat) (r : Rbuf) (m : Mem) (h : r.Inv) (
   have : r.size + xs.length - r.cap = r.abs.length + (xs.length - r.cap) := by omega
   rw [this, ← List.drop_drop, List.drop_left]
 
+/-! ## Drains: dequeues return the window front to back -/
+
+/-- what a successful / failed dequeue reports -/
+def okOut (x : Nat) : Out := ⟨some .ok, some x⟩
+def emptyOut : Out := ⟨some .errOutOfRange, none⟩
+
+/-- **Drain.** `n` dequeues return the first `n` held items in order, then `CC_ERR_OUT_OF_RANGE`
+for every call made on the empty buffer, and leave the rest. -/
+theorem spec_dequeue_burst (n : Nat) (f : Spec.Fifo) :
+    (f.run (List.replicate n Op.dequeue)).1 =
+        (f.items.take n).map okOut ++ List.replicate (n - f.items.length) emptyOut ∧
+    (f.run (List.replicate n Op.dequeue)).2 = { f with items := f.items.drop n } := by
+  induction n generalizing f with
+  | zero => simp [Spec.Fifo.run]
+  | succ n ih =>
+    simp only [List.replicate_succ, Spec.Fifo.run, Spec.Fifo.step, Spec.Fifo.dequeue]
+    cases hi : f.items with
+    | nil =>
+      have := ih f
+      simp only [hi, List.take_nil, List.map_nil, List.nil_append, List.length_nil, Nat.sub_zero,
+        List.drop_nil] at this ⊢
+      refine ⟨by rw [this.1, List.replicate_succ]; rfl, ?_⟩
+      rw [this.2]
+    | cons x xs =>
+      have := ih { f with items := xs }
+      simp only [List.take_succ_cons, List.map_cons, List.cons_append, List.length_cons,
+        Nat.add_sub_add_right, List.drop_succ_cons] at this ⊢
+      exact ⟨by rw [this.1]; rfl, this.2⟩
+
+/-- histories compose -/
+theorem spec_run_append (a b : List Op) (f : Spec.Fifo) :
+    (f.run (a ++ b)).1 = (f.run a).1 ++ ((f.run a).2.run b).1 ∧
+    (f.run (a ++ b)).2 = ((f.run a).2.run b).2 := by
+  induction a generalizing f with
+  | nil => simp [Spec.Fifo.run]
+  | cons op a ih =>
+    have := ih (f.step op).2
+    simp only [List.cons_append, Spec.Fifo.run, List.cons.injEq, true_and]
+    exact this
+
+/-- enqueue is `void`: it reports nothing -/
+theorem spec_run_enqueues_out (xs : List Nat) (f : Spec.Fifo) :
+    (f.run (xs.map Op.enqueue)).1 = xs.map (fun _ => (⟨none, none⟩ : Out)) := by
+  induction xs generalizing f with
+  | nil => rfl
+  | cons x xs ih => simp only [List.map_cons, Spec.Fifo.run, Spec.Fifo.step, List.cons.injEq, true_and]; exact ih _
+
+/-- **C19 end to end, on the concrete model.** From any state satisfying the invariant: enqueue
+`xs`, then call dequeue `k` times.  The dequeues return, in order, the first `k` items of the window
+`(held ++ xs).drop (size + |xs| − cap)` with `CC_OK`, and `CC_ERR_OUT_OF_RANGE` once it is
+exhausted — nothing else, whatever the head/tail positions were and however often they wrap. -/
+theorem burst_then_drain (xs : List Nat) (k : Nat) (r : Rbuf) (m : Mem) (h : r.Inv) :
+    (r.run (xs.map Op.enqueue ++ List.replicate k Op.dequeue) m).1 =
+      xs.map (fun _ => (⟨none, none⟩ : Out)) ++
+      ((((r.abs ++ xs).drop (r.size + xs.length - r.cap)).take k).map okOut ++
+        List.replicate (k - ((r.abs ++ xs).drop (r.size + xs.length - r.cap)).length) emptyOut) := by
+  obtain ⟨hout, _, _, _⟩ := history_refines (xs.map Op.enqueue ++ List.replicate k Op.dequeue) r m h
+  have hl : (Spec.Fifo.mk r.cap r.abs).items.length ≤ (Spec.Fifo.mk r.cap r.abs).cap := by
+    simpa [Rbuf.abs_length] using h.2.2.1
+  have hw := (spec_enqueue_all_window xs (Spec.Fifo.mk r.cap r.abs) h.1 hl).1
+  simp only [Rbuf.abs_length] at hw
+  rw [hout, (spec_run_append _ _ _).1, spec_run_enqueues_out, spec_run_enqueues,
+    (spec_dequeue_burst k _).1, hw]
+
+/-- instance: default capacity 10, 13 items in, 11 dequeues → items 3..12 then one error -/
+example : ((Rbuf.mk 0 10 0 0 (List.replicate 10 0) .conf).run
+      ((List.range 13).map Op.enqueue ++ List.replicate 11 Op.dequeue) {}).1.drop 13 =
+    (List.range' 3 10).map okOut ++ [emptyOut] := by decide
+
 /-! ## Non-vacuity and a concrete instance -/
 example : ((Rbuf.mk 3 3 1 1 [8, 6, 7] .conf).run ([1, 2].map Op.enqueue) {}).2.1.abs = [8, 1, 2] := by decide
 
